@@ -49,6 +49,13 @@ class tar_syncer(http_syncer, base.ExternalSyncer):
         repo_name = os.path.basename(basedir)
         self.tempdir = os.path.join(repos_dir, f".{repo_name}.update")
         self.tempdir_old = os.path.join(repos_dir, f".{repo_name}.old")
+        # recover from an interrupted run: a repo that was moved out of the way
+        # without its replacement making it into place is put back, and stale
+        # staging dirs (they are only removed at exit) are dropped.
+        if not os.path.exists(basedir) and os.path.isdir(self.tempdir_old):
+            os.rename(self.tempdir_old, basedir)
+        shutil.rmtree(self.tempdir, ignore_errors=True)
+        shutil.rmtree(self.tempdir_old, ignore_errors=True)
         # remove tempdirs on exit
         atexit.register(partial(shutil.rmtree, self.tempdir, ignore_errors=True))
         atexit.register(partial(shutil.rmtree, self.tempdir_old, ignore_errors=True))
@@ -89,10 +96,17 @@ class tar_syncer(http_syncer, base.ExternalSyncer):
         # TODO: verify gpg data if it exists
 
         try:
-            if os.path.exists(self.basedir):
+            moved = os.path.exists(self.basedir)
+            if moved:
                 # move old repo out of the way if it exists
                 os.rename(self.basedir, self.tempdir_old)
-            # move new, unpacked repo into place
-            os.rename(self.tempdir, self.basedir)
+            try:
+                # move new, unpacked repo into place
+                os.rename(self.tempdir, self.basedir)
+            except OSError:
+                if moved:
+                    # put the old repo back rather than leaving nothing
+                    os.rename(self.tempdir_old, self.basedir)
+                raise
         except OSError as e:
             raise base.SyncError(f"failed to update repo: {e.strerror}") from e
